@@ -24,9 +24,9 @@ class Scratch:
         self.dir = tempfile.mkdtemp(prefix="jasmverif-")
         self.n = 0
 
-    def write(self, text, suffix, binary=False):
+    def write(self, text, suffix, binary=False, stem="f"):
         self.n += 1
-        path = os.path.join(self.dir, "f%d%s" % (self.n % 64, suffix))
+        path = os.path.join(self.dir, "%s%d%s" % (stem, self.n % 64, suffix))
         with open(path, "wb" if binary else "w") as f:
             f.write(text)
         return path
@@ -84,12 +84,21 @@ def guarded(fn):
 def compile_rule(scratch, doc, macro_docs=()):
     """Regex text produced by Yaml2Regex for a rule document (and extra macro files)."""
     path = scratch.write(dump_yaml(doc), ".yaml")
-    mpaths = [scratch.write(dump_yaml(m), ".macros.yaml") for m in macro_docs]
+    mpaths = macro_paths(scratch, macro_docs)
     if HISTORY["every"]:
         HISTORY["count"] += 1
         if HISTORY["count"] % HISTORY["every"] == 0:
             _prelude(scratch)
     return guarded(lambda: Yaml2Regex(path, macros_from_terminal=mpaths or None).produce_regex())
+
+
+def macro_paths(scratch, macro_docs):
+    """extra macro files, written so that the order of their PATHS is the reverse of the order in which they are given
+    every other time (the order given is the one that counts)"""
+    stems = ["f"] * len(macro_docs)
+    if len(macro_docs) > 1 and scratch.n % 2:
+        stems = ["zz%02d_" % (len(macro_docs) - i) for i in range(len(macro_docs))]
+    return [scratch.write(dump_yaml(m), ".macros.yaml", stem=st) for m, st in zip(macro_docs, stems)]
 
 
 RET = {"bool": MatchingReturnMode.bool, "list": MatchingReturnMode.matched_addrs_list,
@@ -156,7 +165,7 @@ def run_op(scratch, doc, text, mode="first", addr_only=False, ret="bool", macro_
            rule_path=None, input_path=None):
     """One complete compile-and-match operation through MasterOfPuppets."""
     path = rule_path or scratch.write(dump_yaml(doc), ".yaml")
-    mpaths = [scratch.write(dump_yaml(m), ".macros.yaml") for m in macro_docs]
+    mpaths = macro_paths(scratch, macro_docs)
     if binary_path is not None:
         inp, kind = binary_path, InputFileType.binary
     else:
